@@ -33,6 +33,9 @@ question to the `unicodedata` oracle); e21485a — `build` lower-cases the schem
 Continued in C19HeadlineMore3.lean (PART A, MODEL-LEVEL: the Python-level type gates over YarlModel/Dyn.lean — wrong-typed
 arguments raise TypeError, the entry points without a type gate — GAPS 1; PART B: exception discipline and printability
 over `ReachE`, the closure of ALL entry points incl. encoded=True — GAPS 4).
+Continued further in C19HeadlineMore4.lean (MODEL-LEVEL, over YarlModel/DynBuild.lean: `URL.build` on arbitrary keyword
+objects — the typed bridge, the NEGATIVE result for wrong-typed keywords, the argument checks —, `without_query_params`
+with arbitrary names, the bool flags as arbitrary objects — GAPS 1, 8).
 -/
 namespace Yarl
 open ErrLemmas NetlocLemmas StrTotal EagerLemmas
@@ -408,13 +411,49 @@ GAPS:
     C19_headline_dyn_joinpath_element_table, C19_headline_dyn_with_path_nonstr (never a URL of the model: TypeError,
     KeyError or garbage), C19_headline_dyn_with_path_table (from C19_dyn_joinpath_strs / _nonstr / _errors,
     C19_dyn_childArgErr_table, C19_dyn_with_path_nonstr, C19_dyn_with_path_table).
-    STILL OPEN (no dynamic entry point in Dyn.lean, no theorem): wrong-typed keyword arguments of `URL.build(…)`
+    WAS STILL OPEN (no dynamic entry point in Dyn.lean, no theorem): wrong-typed keyword arguments of `URL.build(…)`
     (scheme / user / password / host / path / query_string / fragment / authority that are not str; only `port` and
     `query` have tags in the typed model), the `names` of `without_query_params`, the `encoded` / `keep_query` /
-    `keep_fragment` flags, pickling / `__setstate__`, `bytes()` (`==` / `!=` with a non-URL are total in Dyn.lean — they
+    `keep_fragment` flags.  These three — PARTLY CLOSED, MODEL-LEVEL, with a NEGATIVE result, by C19_dynBuild_typed,
+    C19_dynBuild_ofArgs, C19_dynBuild_typed_errors, C19_dynBuild_error_kinds, C19_dynBuild_attributeError_iff,
+    C19_dynBuild_objErr_table, C19_dynBuild_attributeError_leaks, C19_dynBuild_garbage_leaks,
+    C19_dynBuild_encoded_leaks, C19_dynBuild_leak_instances, C19_dynBuild_errors_FAILS, C19_dynBuild_stop,
+    C19_dynBuild_checks, C19_dynBuild_conflict_iff, C19_dynBuild_valueError_sources, C19_dynBuild_none_order,
+    C19_dynWithoutQueryParams, C19_dyn_flags (C19DynBuild.lean, over the new model file YarlModel/DynBuild.lean), see
+    C19_headline_dyn_build_documented_types, C19_headline_dyn_build_keyword_form, C19_headline_dyn_build_kinds_FAILS,
+    C19_headline_dyn_build_kinds, C19_headline_dyn_build_attribute_error_iff,
+    C19_headline_dyn_build_fails_for_wrong_typed_keyword, C19_headline_dyn_build_leak_instances,
+    C19_headline_dyn_build_argument_checks, C19_headline_dyn_build_conflicts,
+    C19_headline_dyn_build_check_order_instances, C19_headline_dyn_without_query_params, C19_headline_dyn_flags
+    (C19HeadlineMore4.lean).  Proved, about the Lean transcription `dynBuild` of the body of `URL.build` over `PyObj`
+    keyword objects (every keyword optional, defaults of the signature):
+    (i) UNDER THE HYPOTHESIS `BuildObjs.Typed` (every keyword object has its documented type: str for scheme /
+    authority / host / path / query_string / fragment, str or None for user / password, int-not-bool or None for port;
+    `query` and `encoded` arbitrary) `URL.build` IS the typed `build` on the coerced arguments, so a failure is
+    ValueError / TypeError (or an oracle request) and no non-URL object is returned — the typed theorems transfer;
+    (ii) WITHOUT that hypothesis the clause is FALSE: C19_headline_dyn_build_kinds_FAILS (¬ ∀ kwargs: URL ∨ ValueError
+    ∨ TypeError).  `URL.build(scheme=1)`, `(authority=1)`, `(host=b"x")`, `(host=("a",))` raise AttributeError;
+    `URL.build(scheme=b"x")`, `(path=0)`, `(query_string=[])`, `(fragment=())` and — with `encoded=True` — ANY hashable
+    non-str scheme / path / query_string / fragment RETURN a URL object with a non-str part (`garbage 0`), a non-str
+    user / password / host with `encoded=True` is `format()`ted into the netloc (`garbage 1`); a wrong-typed falsy
+    `user` / `host` is silently ignored.  Like joinpath / with_path above this is outside "arguments of the documented
+    types", hence not a violation of C19 and NOT a finding; the strongest true statements are proved instead: the
+    kind bound Allowed ∨ AttributeError and garbage ∈ {0, 1} (no IndexError / KeyError from `build`), the EXACT
+    condition for AttributeError (an iff), the leaking one-keyword calls for every environment;
+    (iii) the argument checks of `build` in source order as iffs on arbitrary objects (conflict authority-vs-parts,
+    port type, port range, port without host, query with query_string, a None argument), each raising its exception
+    whatever the other arguments are; the three conflicts as one iff, always ValueError; every ValueError is a
+    conflict, the port range or value-level; `build` has no "scheme requires a host" check;
+    (iv) `without_query_params(*names)`: the only failure is TypeError ⇔ some name is unhashable, hashable non-str names
+    are ignored, str names give the typed function;
+    (v) the flags act through `bool(o)` (the entry point of Dyn.lean at `truthy o`), no exception comes from a flag.
+    "MODEL-LEVEL" as above: item 8.
+    STILL OPEN (no dynamic entry point, no theorem): pickling / `__setstate__`, `bytes()`, `cache_configure` /
+    `cache_clear` / `cache_info` arguments (`==` / `!=` with a non-URL are total in Dyn.lean — they
     return a bool — and belong to C10: C10Dyn.lean);
-    objects outside `PyObj` (classes overriding `__str__`, `__eq__`, `__getitem__`, `__bool__`, `__int__` …, Mapping types
-    other than dict).
+    objects outside `PyObj` (classes overriding `__str__`, `__eq__`, `__getitem__`, `__bool__`, `__hash__`, `__int__`,
+    `__format__` …, Mapping types other than dict); what a `garbage` object does when it is USED afterwards
+    (`str(URL.build(path=0))` etc.) is not modelled: `PathOut.garbage k` ends the model's account.
  2. `oracleMiss` is a third outcome in every kinds-theorem.  It stands for "the model was not told what
     idna / unicodedata / str.isdigit / str.lower return"; that those library calls raise only
     UnicodeError ⊂ ValueError (idna.IDNAError is a UnicodeError) — "including IDNA errors" — is an ASSUMPTION
@@ -427,7 +466,9 @@ GAPS:
     allowed, but arguably a "leak" at accessor time rather than at construction.  (Restated for every URL of the
     closure of all entry points incl. encoded=True: C19_headline_reachE_kinds, C19HeadlineMore3.lean, from
     C19_reachE_errors, C19ReachE.lean — a corollary of the kinds theorems above, which hold for ALL records.)
-    With wrong-typed arguments KeyError / AttributeError DO leak from `joinpath` / `with_path` (model-level): item 1.
+    With wrong-typed arguments KeyError / AttributeError DO leak from `joinpath` / `with_path` (model-level): item 1;
+    AttributeError DOES leak from `URL.build` with wrong-typed scheme / authority / host objects (model-level,
+    C19_headline_dyn_build_kinds_FAILS, C19_headline_dyn_build_attribute_error_iff, C19HeadlineMore4.lean): item 1 (ii).
  4. PARTLY CLOSED (narrowed) by C19_twin_str_total_iff + C09_no_prefill + C19_preencoded_str_total_iff (C19Ctor.lean,
     C09.lean), see C19_headline_str_total_encoded_iff: a result of build() (any `encoded`) or of URL(s, encoded=True)
     prints IF AND ONLY IF its stored authority splits.  The side condition `u.pre = none` of
@@ -507,5 +548,27 @@ GAPS:
     EVERY cache-free record of five Python strings is in `ReachE`, so a statement over `ReachE` without a side condition
     is a statement about arbitrary stored text — which is why C19_headline_reachE_str_total needs the hypothesis on the
     entry-point results and C19_headline_reachE_kinds does not use `ReachE` at all.
+ 8. NEW (trusted base of item 1 (i)–(v), C19HeadlineMore4.lean).  YarlModel/DynBuild.lean is, like Dyn.lean (item 6), a
+    hand transcription — of the BODY of `URL.build` statement by statement (eight stages, the first failing statement
+    decides the exception), of `set(names)` in `without_query_params`, and of the flag tests — and every
+    `C19_headline_dyn_build_*` / `…_dyn_without_query_params` / `…_dyn_flags` theorem is a statement about that model.
+    Value-level work is delegated to the typed `build`; when a wrong-typed object makes a later statement fail, the
+    errors of the earlier statements are taken from `build` on a PREFIX of the coerced arguments (`firstErr`,
+    `netArgs`) — a modelling device to be read.  Its ASSUMPTIONS (header of DynBuild.lean), on top of those of item 6:
+    `bool(o)` / `hash(o)` behave as `Dyn.truthy` / `Dyn.hashable` say (`.other` objects truthy and hashable, a tuple
+    hashable iff its elements are); an `lru_cache` key does not distinguish 0 / False / 0.0 nor "x" / S("x"), and the
+    outcome alphabet (URL text / exception kind / garbage kind) does not either; which AttributeError / TypeError a
+    non-str `authority` / `host` object raises is given by the tables `authorityObjErr` / `hostObjErr` (read off the
+    library's behaviour, not derived from a model of `str` methods).  The model is compared with the real library on a
+    finite probe table only: statically, the `example … := by decide +kernel` rows at the end of C19DynBuild.lean
+    (every keyword × {None, 0, 1, True, b"x", "", "x", [], object()} and more shapes, alone, next to a host, with
+    `encoded=True`; the conflict combinations; the order of the checks; without_query_params; the flags — outcomes
+    recorded from the real library, identical on both quoter backends, evaluated in the model with the C backend and
+    empty oracle tables, `Dyn.pe`), and at run time by the dynamic layer (`run_dynbuild_probe`, harness/extras.py: the
+    878-row table is evaluated by the Lean model and by the installed library on both backends on every run, any
+    disagreement is a failure of class dyn-dispatch; if the probe script itself cannot be run only a note is recorded).
+    Agreement on all other objects / argument combinations is NOT proved.  The hypothesis `BuildObjs.Typed` of item 1 (i)
+    is the model's reading of "arguments of the documented types" for `build` (a bool is NOT accepted as a port although
+    `bool` is a subclass of `int`: statement 2 of `build` raises TypeError for it, probe rows).
 -/
 end Yarl
